@@ -147,7 +147,11 @@ class Result:
         self.bounds = {}
         self.family = {}
         self.extra = {}
-        self.assumptions = []
+        self.assumptions = [
+            "rustc/cargo 1.95 (nightly for Miri and -Zunpretty) on x86-64 Linux with 64-bit usize; behaviour on other targets is not observed",
+            "rustc accept/reject verdicts may be served from a verdict cache keyed by (source text, flags, sha256 of the derive dylib built "
+            "from /repo's current working tree, rustc -V, size+mtime of every --extern file): a changed derive never reuses a verdict",
+        ]
         self.exhaustive = True
         self.rule = ""
         self.technique = technique
